@@ -473,6 +473,10 @@ def case_how(case):
     zone, mode = case["zone"], case["mode"]
     start, end = window_bounds(zone, {"w": "years"})
     key = {"part": "how"}
+    if case.get("shift"):
+        # data on the UTC-hour lattice in a zone whose offset is not a whole number of hours: every stamp is hh:30 / hh:45 local
+        start, end = start + case["shift"], end + case["shift"]
+        key = {"part": "how", "stamps": "off_the_local_hour"}
     viol = []
     spans = []
     if mode == "years":
@@ -819,6 +823,9 @@ def cases(tier):
                     out["weights"].append({"part": "weights", "zone": zone, "segment_type": st, "window": w, "drop": drop})
         for mode in ("years", "weeks"):
             out["how"].append({"part": "how", "zone": zone, "mode": mode})
+    for zone, shift in (("Asia/Kolkata", 1800), ("Asia/Kathmandu", 900), ("Australia/Adelaide", 1800)):
+        for mode in ("years", "weeks"):
+            out["how"].append({"part": "how", "zone": zone, "mode": mode, "shift": shift})
     # two-call histories: one UTC window localised to zone A, then to zone B (all ordered pairs)
     for za, zb in itertools.permutations(ZONES, 2):
         for st in SEGMENT_TYPES:
